@@ -941,6 +941,11 @@ func (g *Gen) scenarios() []intent {
 				{Kind: "tick", D: 15},
 				g.req(b, "POST", "SmsSetup", []KV{{"phone_number", lit("+15559999")}})}
 			route := pickS(g.rng, "SmsRemove", "SmsRemove", "SmsValidate", "SmsConfirm")
+			if g.rng.Intn(3) == 0 {
+				// ... or one of the account's recovery codes is offered to the page that enrols the NEW number:
+				// a recovery code stands in for the old factor, it proves nothing about the new number
+				return append(out, g.req(b, "POST", "SmsConfirm", []KV{{"recovery_code", Desc{K: "rc", U: u, I: g.rng.Intn(2)}}}))
+			}
 			return append(out, g.req(b, "POST", route, []KV{{"code", Desc{K: "sessval", B: b, V: "sms_secret"}}}))
 		})
 	}
